@@ -99,4 +99,13 @@ theorem C18_iterIndex_not_idempotent :
                      ⟨2, 2, 1, -1, -1, 7, 0, "a", "c", ""⟩], hasRank := false, decoded := false }, ?_⟩
   decide
 
+def exFrame : Frame := { rows := [⟨0, 0, 10, -1, -1, 1, 0, "aten::add", "cpu_op", ""⟩, ⟨1, 2, 3, 7, 5, 1, 0, "k", "kernel", ""⟩,
+                                   ⟨2, 12, 4, -1, -1, 2, 0, "aten::mm", "cpu_op", ""⟩], hasRank := false, decoded := false }
+/-- Non-vacuity: a time-range filter and a device-side filter are row-local on a concrete frame, select
+different non-empty sets, and their composition in either order is the intersection. -/
+example : (rowPred exFrame (.timeRange 0 10)).isSome = true ∧ (rowPred exFrame (.gpu false)).isSome = true ∧
+    ((apply (.timeRange 0 10) exFrame).rows.map (·.idx)) = [0, 1] ∧ ((apply (.gpu false) exFrame).rows.map (·.idx)) = [1] ∧
+    (apply (.gpu false) (apply (.timeRange 0 10) exFrame)).rows = (apply (.timeRange 0 10) (apply (.gpu false) exFrame)).rows := by
+  decide
+
 end Hta.C18
